@@ -94,27 +94,29 @@ def run(cx):
               "the optional marker of a %s property is not derived from is_nullable() of its target type" % v, r.loc())
     cx.ob("R27.raw-keys", "variant-LinkedField|recurses", ra["LinkedField"]["recurses"] and "selection_map" in ra["LinkedField"]["fields"],
           "the raw response type of a linked field does not describe its nested selections", r.loc())
-    # the "?" literal is chosen on the true branch of is_nullable
+    # the "?" literal is chosen on the true branch of is_nullable (in the printer or a private helper it calls)
     n = 0
-    for t in r.calls():
-        if re.search(r"::is_nullable$", t.callee or ""):
-            n += 1
-            try:
-                tt, ft = call_bool_branch(r, t)
-            except AnchorError:
-                continue
-            def lit_in(b0):
-                out = []
-                for b in [b0]:
-                    for s in r.blocks[b].stmts:
-                        for o in s.ops:
+    cone = owner_cone(fb, [r.id], crates={"artifact_content"})
+    for rr in cone_fns(fb, cone):
+        for t in rr.calls():
+            if re.search(r"::is_nullable$", t.callee or ""):
+                n += 1
+                try:
+                    tt, ft = call_bool_branch(rr, t)
+                except AnchorError:
+                    continue
+
+                def lit_in(b0, rr=rr):
+                    out = []
+                    for s_ in rr.blocks[b0].stmts:
+                        for o in s_.ops:
                             c = op_const(o)
                             if c and "str" in c:
                                 out.append(c["str"])
-                return out
-            cx.ob("R27.raw-keys", "%s|question-mark-on-nullable#%d" % (r.id, n), "?" in lit_in(tt) and "?" not in lit_in(ft),
-                  "`?` is printed for non-nullable (or omitted for nullable) response fields", r.loc(t.line))
-    cx.floor("R27.raw-keys nullability tests", n, 2)
+                    return out
+                cx.ob("R27.raw-keys", "%s|question-mark-on-nullable#%d" % (r.id, n), "?" in lit_in(tt) and "?" not in lit_in(ft),
+                      "`?` is printed for non-nullable (or omitted for nullable) response fields", rr.loc(t.line))
+    cx.floor("R27.raw-keys nullability tests", n, 1)
     # ---- R27.param-keys ------------------------------------------------------------------------
     pt = [f for f in fb.fns.values() if f.file.endswith("generate_updatable_and_parameter_type.rs") and
           re.search(r"write_param_type_from_(selection|client_field|scalar|linked)", f.name or "")]
